@@ -86,6 +86,7 @@ type CallRule struct {
 	Ensures  []*Clause // scoped assumed postconditions of the callees (definitional ghost links)
 	Assigns  []string  // ghost fields the matched calls change
 	Pure     bool      // the matched calls are assumed not to change the modelled (non-ghost) heap
+	Optional bool      // the rule may match no call site (otherwise that is reported as vacuous)
 	Props    []string
 	File     string
 	Line     int
@@ -374,6 +375,11 @@ func (cs *ContractSet) parseFile(path, pkg string) error {
 				return fail("sweep outside func")
 			}
 			cur.Sweep = true
+		case "optional":
+			if curRule == nil {
+				return fail("optional outside callrule")
+			}
+			curRule.Optional = true
 		case "pureeffect":
 			if curRule != nil {
 				curRule.Pure = true
